@@ -39,6 +39,7 @@ func checkC08(p *Prog, r *Report) {
 	c08Reprepare(p, r)
 	c08RawBody(p, r)
 	privateFrames(p, r, "C08.private-frames")
+	c08ReplayEncoding(p, r)
 }
 
 func c08Wiring(p *Prog, r *Report) {
@@ -417,4 +418,118 @@ func c08RawBody(p *Prog, r *Report) {
 	r.count("raw_body_sites", len(sites))
 	r.check(len(bad) == 0, rule, "RawFrame.Body byte reads", "", fmt.Sprintf("%d sites", len(sites)), strings.Join(dedupe(bad), " || "))
 	_ = token.ADD
+}
+
+// c08ReplayEncoding: the prepared cache is shared by all sessions (every protocol version,
+// every compression).  What is replayed on a connection to re-prepare a statement must be
+// encoded for that connection, and what is cached must not carry the compression or the
+// per-request flags of the connection it happened to be prepared on.
+func c08ReplayEncoding(p *Prog, r *Report) {
+	const rule = "C08.replay-encoding"
+	r.Rule(rule, "the frame cached for a prepared statement and the frame replayed to re-prepare it are produced by decoding the PREPARE and encoding its message again (NewFrame + ConvertToRawFrame): cached without compression and request flags, replayed with the protocol version of the connection it is sent on (the version of the UNPREPARED response just received there), never the preparing client's frame bytes as they were")
+	prepF := p.Field("proxycore", "prepareRequest", "prepare")
+	entryF := p.Field("proxycore", "PreparedEntry", "PreparedFrame")
+	verF := p.Field("frame", "Header", "Version")
+	// describe how a stored frame value was produced: (reencoded?, version argument at the outermost call site)
+	type prod struct {
+		reencoded bool
+		version   ssa.Value // in the storing function
+		why       string
+	}
+	var produce func(v ssa.Value, depth int) prod
+	produce = func(v ssa.Value, depth int) prod {
+		for _, o := range origins(v) {
+			ex, ok := o.(*ssa.Extract)
+			if !ok || ex.Index != 0 {
+				return prod{why: "the stored frame is " + valDesc(o) + ", not the result of an encoding"}
+			}
+			call, ok := ex.Tuple.(*ssa.Call)
+			if !ok {
+				return prod{why: "the stored frame is not the result of an encoding"}
+			}
+			if call.Call.IsInvoke() && call.Call.Method.Name() == "ConvertToRawFrame" {
+				for _, fo := range origins(call.Call.Args[0]) {
+					nf, ok := fo.(*ssa.Call)
+					if !ok || !callIsFunc(nf, "frame", "NewFrame") {
+						return prod{why: "the converted frame is not built with frame.NewFrame (it would keep the original header's flags)"}
+					}
+					return prod{reencoded: true, version: nf.Call.Args[0]}
+				}
+			}
+			callee := call.Call.StaticCallee()
+			if callee == nil || !p.InRepo(callee) || depth == 0 {
+				return prod{why: "the stored frame comes from " + callDesc(call) + ", which does not re-encode"}
+			}
+			var inner prod
+			found := false
+			eachInstr(callee, func(in ssa.Instruction) {
+				if ret, ok := in.(*ssa.Return); ok && len(ret.Results) > 0 {
+					if pr := produce(ret.Results[0], depth-1); pr.reencoded || !found {
+						if c, isConst := ret.Results[0].(*ssa.Const); isConst && c.Value == nil {
+							return // the error path returns nil
+						}
+						inner, found = pr, true
+					}
+				}
+			})
+			if !found || !inner.reencoded {
+				if inner.why == "" {
+					inner.why = callee.Name() + " does not re-encode the message"
+				}
+				return inner
+			}
+			// map the version back to the caller's argument when it is a parameter of the helper
+			for i, par := range callee.Params {
+				if inner.version == ssa.Value(par) && i < len(call.Call.Args) {
+					inner.version = call.Call.Args[i]
+				}
+			}
+			return inner
+		}
+		return prod{why: "no producer found"}
+	}
+	n := 0
+	for _, fn := range p.ScopedFuncs("proxycore") {
+		eachInstr(fn, func(in ssa.Instruction) {
+			st, ok := in.(*ssa.Store)
+			if !ok {
+				return
+			}
+			fa, ok := st.Addr.(*ssa.FieldAddr)
+			if !ok {
+				return
+			}
+			f := fieldOfAddr(fa)
+			if f != prepF && f != entryF {
+				return
+			}
+			n++
+			pr := produce(st.Val, 2)
+			var bad []string
+			if !pr.reencoded {
+				bad = append(bad, pr.why)
+			} else if f == prepF {
+				// replay: version of a frame received on this connection (a RawFrame parameter of this function)
+				okVer := false
+				if vf, hdr := loadedField(pr.version); vf == verF && hdr != nil {
+					if _, base := loadedField(hdr); base != nil {
+						if par, isPar := base.(*ssa.Parameter); isPar && par.Parent() == fn {
+							okVer = true
+						}
+					}
+				}
+				if !okVer {
+					bad = append(bad, "the replayed PREPARE is not encoded with the protocol version of the frame just received on this connection ("+fieldPath(pr.version)+"): a statement prepared through a session of another version is replayed with that other version")
+				}
+			}
+			what := "PreparedEntry.PreparedFrame"
+			if f == prepF {
+				what = "prepareRequest.prepare"
+			}
+			r.check(len(bad) == 0, rule, what+"@"+fn.Name(), p.Pos(st.Pos()), "decoded and encoded again", strings.Join(bad, " || "))
+		})
+	}
+	if n < 2 {
+		fatalf("rule %s: only %d stores of re-prepare frames found (2 confirmed by hand)", rule, n)
+	}
 }
